@@ -18,7 +18,7 @@ package scalarEstimator
 
 /* -------------------------------------------------------------------------- */
 
-//import   "fmt"
+import   "fmt"
 import   "math"
 
 import . "github.com/pbenner/autodiff/statistics"
@@ -115,6 +115,9 @@ func (obj *ExponentialEstimator) updateEstimate() error {
   // compute new mean
   //////////////////////////////////////////////////////////////////////////////
   lambda := NewScalar(obj.ScalarType(), math.Exp(sum_g - sum_m))
+  if math.IsNaN(lambda.GetFloat64()) {
+    return fmt.Errorf("exponential parameter estimation failed (no observation with positive weight)")
+  }
 
   if lambda.GetFloat64() > obj.LambdaMax {
     lambda.SetFloat64(obj.LambdaMax)
